@@ -1,7 +1,7 @@
 #!/bin/sh
 # offline setup: nothing is compiled; parse every specification module and smoke-test the imports
 cd "$(dirname "$0")/../spec" || exit 1
-LOG="../.work/sany.log"
+LOG="../.work/sany.$$.log"
 mkdir -p ../.work
 for f in *.tla; do
   if ! java -cp /opt/veriftools/tla/tla2tools.jar:/opt/veriftools/tla/CommunityModules-deps.jar tla2sany.SANY "$f" > "$LOG" 2>&1; then
